@@ -37,7 +37,7 @@ fn cut_positions(enc: &wire::Encoded, exhaustive_up_to: usize, pick: u64) -> (Ve
         s = splitmix64(s);
         v.push((s % (len as u64 + 1)) as usize);
     }
-    for b in [4096usize, 8192, 16384] {
+    for b in [4096usize, 8192, 16384, 32768, 65536, 131072] {
         for d in 0..5 {
             let c = (b + d).saturating_sub(2);
             if c <= len {
@@ -67,7 +67,7 @@ pub fn check_with(case: &Case, exhaustive_up_to: usize) -> CaseResult {
         let want_terminal = if enc.is_boundary(cut) { Terminal::CleanEof } else { eof() };
         let prefix = &enc.bytes[..cut];
         for seg in [Seg::Whole, Seg::OneByte, Seg::Chunk(7)] {
-            if seg == Seg::OneByte && cut > 6000 {
+            if seg != Seg::Whole && cut > 6000 && (seg == Seg::OneByte || cut > 40_000) {
                 continue;
             }
             for fl in [Flavour::Blocking, Flavour::Async] {
@@ -158,7 +158,7 @@ fn strategy(tier: Tier) -> BoxedStrategy<Case> {
     (
         prop_oneof![
             4 => wire::responses(5, 60, 60),
-            1 => wire::responses(3, tier.pick(9_000, 20_000), 300),
+            1 => wire::responses_maybe_huge(3, tier.pick(9_000, 20_000), 300, 6),
         ],
         any::<u64>(),
     )
